@@ -122,9 +122,14 @@ def run_history(tests, setting):
     (the stream is inspected after the run, as a queue or an event log would hold it)."""
     run_tags, test_tags, explicit = setting[:3]
     names = NAME_SETS[setting[3]] if len(setting) > 3 else NAMES
+    target_stopped = len(setting) > 4 and setting[4] == "stopped"
     stream = rec.Stream()
     ext = rec.Ext()
     top = ExtendedToStreamDecorator(CopyStreamResult([stream, StreamToExtendedDecorator(ext)]))
+    if target_stopped:
+        # the final result was asked to stop earlier on (its own fail-fast, a stop() from elsewhere):
+        # tests that are reported nevertheless still have to arrive
+        ext.shouldStop = True
     problems = []
     reported = []
     try:
@@ -320,6 +325,8 @@ def work_items(tier):
     for a, b in itertools.product(small, repeat=2):
         for s in ((True, True, True, 0), (False, True, False, 1), (True, "late", False, 0)):
             items.append(([("case",) + a, ("placeholder",) + b], s))
+    for a, b in itertools.product(variants_small(3), repeat=2):
+        items.append(([("case",) + a, ("placeholder",) + b], (True, True, True, 0, "stopped")))
     if tier != "quick":
         tiny = variants_small(2)[::2]
         for a, b, c in itertools.product(tiny, repeat=3):
